@@ -128,12 +128,14 @@ def judge_call(world, srv, meth, args, out, emulated=False):
         if dec.verb != verb:
             return Failure(PROP, "C08.verb", "%s%r sent verb %r" % (meth, args, dec.verb), info)
         exp = [a.encode("utf-8") if isinstance(a, str) else a for a in args]
+        if meth == "havespace" and isinstance(args[1], str):
+            exp[1] = int(args[1])
         if dec.args != exp:
             clause = "C08.value"
             return Failure(PROP, clause, "%s%r: the server decodes arguments %r from %r" % (
                 meth, args, dec.args, dec.raw), info)
-        for a, k in zip(args, dec.kinds):
-            if isinstance(a, int) and k != "n":
+        for j, (a, k) in enumerate(zip(args, dec.kinds)):
+            if (isinstance(a, int) or (meth == "havespace" and j == 1)) and k != "n":
                 return Failure(PROP, "C08.value", "%s%r: number sent as a string in %r" % (meth, args, dec.raw), info)
     else:
         # any order and any number of the script-management commands an emulation may reasonably use; RENAMESCRIPT
@@ -146,6 +148,8 @@ def judge_call(world, srv, meth, args, out, emulated=False):
         old, new = (a.encode("utf-8") for a in args)
         for c in cmds:
             d = c.decoded
+            if d.verb == b"DELETESCRIPT" and d.args in ([new],):
+                continue      # an emulation may remove its own copy again when a later step is refused
             if d.verb in (b"GETSCRIPT", b"DELETESCRIPT") and d.args != [old]:
                 return Failure(PROP, "C08.value", "emulated rename%r: %s decodes to %r" % (args, d.verb.decode(), d.args), info)
             if d.verb in (b"SETACTIVE",) and d.args not in ([new], [old], [b""]):
@@ -239,7 +243,8 @@ def run(ch, config, res):
                     if meth == "skip":
                         continue
                     if meth == "havespace":
-                        sz = [0, 1, 1000, 4294967296, 1 << 40][wl.int("size", 5)]
+                        # the size as an int or as its decimal spelling: either way a number goes on the wire
+                        sz = [0, 1, 1000, 4294967296, 1 << 40, "1000", "0", "00300"][wl.int("size", 8)]
                         args = (value(wl, "name", earlier=used), sz)
                     elif meth in ("getscript", "deletescript", "setactive"):
                         args = (value(wl, "name", earlier=used),)
@@ -262,6 +267,9 @@ def run(ch, config, res):
                         else:
                             # emulated: old must exist for anything to be sent beyond LISTSCRIPTS
                             args = (["alpha", "beta"][wl.int("old", 2)], value(wl, "name2", earlier=used))
+                    # one command in eight is refused by the server whatever it says (what a refusal makes the client
+                    # write next - roll-backs, retries - must be well-formed too)
+                    srv.fault_weights = [7, 1, 0, 0, 0, 0, 0, 0]
                     faults_before = world.net.stats.probes.get("sendall_timeout", 0)
                     used.extend(a for a in args if isinstance(a, str) and len(a) < 200)
                     o = world.call(client, meth, *args)
